@@ -7,7 +7,6 @@ import (
 	"errors"
 	"fmt"
 	"net"
-	"os"
 	"runtime"
 	"sync"
 	"testing"
@@ -106,53 +105,31 @@ func pingPayload(i, n int) []byte {
 }
 
 type ctlResult struct {
-	started   bool
-	done      bool
-	startSeq  int64
-	endSeq    int64
-	start     time.Time
-	end       time.Time
-	deadline  time.Time
-	err       error
-	payload   []byte
-	panicked  interface{}
+	started  bool
+	done     bool
+	startSeq int64
+	endSeq   int64
+	start    time.Time
+	end      time.Time
+	deadline time.Time
+	err      error
+	payload  []byte
+	panicked interface{}
 }
 
 type concRun struct {
-	gc        *xport.GateConn
-	tw        *WTrace
-	ctl       []*ctlResult
-	writerDone, readerDone bool
+	gc                       *xport.GateConn
+	tw                       *WTrace
+	ctl                      []*ctlResult
+	writerDone, readerDone   bool
 	writerPanic, readerPanic interface{}
-	readerErr error
-	appClosed bool
-	closeSeq  int64
-	stuck     string
+	readerErr                error
+	appClosed                bool
+	closeSeq                 int64
+	stuck                    string
 }
 
 var concT *testing.T // the *testing.T of the running test (synctest needs it)
-
-// raceLogGrew reports new data-race reports written by the race detector
-// (GORACE=log_path=...) since the last call.
-var raceLogSize int64
-
-func raceLogGrew() (string, bool) {
-	base := os.Getenv("VERIF_RACE_LOG")
-	if base == "" {
-		return "", false
-	}
-	p := fmt.Sprintf("%s.%d", base, os.Getpid())
-	b, err := os.ReadFile(p)
-	if err != nil || int64(len(b)) <= raceLogSize {
-		return "", false
-	}
-	rep := string(b[raceLogSize:])
-	raceLogSize = int64(len(b))
-	if len(rep) > 3000 {
-		rep = rep[:3000]
-	}
-	return rep, true
-}
 
 func checkC11(c ConcCase, o *Obs) error {
 	var run *concRun
